@@ -348,48 +348,109 @@ char *igris_f32toa(float32_t f, char *buf, int8_t precision)
     return buf;
 }
 
-static inline int64_t local_pow(int b, int n)
+// Decimal literal [+-]digits[.digits][(e|E)[+-]digits] (at least one digit in
+// the mantissa; an 'e' that is not followed by digits is not consumed).
+// The digits are accumulated exactly in an integer and scaled once by a power
+// of ten, in long double, so the result stays within a few ulps of the
+// correctly rounded value over the whole exponent range. *endptr is the first
+// character after the literal (nptr when there is no number).
+static long double parse_decimal(const char *nptr, char **endptr)
 {
-    int64_t res = 1;
-    while (n--)
+    static const long double pow10_bin[] = {
+        1e1L, 1e2L, 1e4L, 1e8L, 1e16L, 1e32L, 1e64L, 1e128L, 1e256L};
+    const char *s = nptr;
+    uint64_t mant = 0;
+    int exp10 = 0;
+    int digits = 0;
+    int neg = 0;
+    long double val;
+
+    if (endptr)
+        *endptr = (char *)nptr;
+    if (!nptr)
+        return 0.0L;
+
+    if (*s == '+')
+        s++;
+    else if (*s == '-')
     {
-        res *= b;
+        s++;
+        neg = 1;
     }
-    return res;
+
+    for (; *s >= '0' && *s <= '9'; s++, digits++)
+    {
+        if (mant <= (UINT64_MAX - 9) / 10)
+            mant = mant * 10 + (uint64_t)(*s - '0');
+        else
+            exp10++; // more digits than the accumulator holds: scale instead
+    }
+    if (*s == '.')
+    {
+        s++;
+        for (; *s >= '0' && *s <= '9'; s++, digits++)
+        {
+            if (mant <= (UINT64_MAX - 9) / 10)
+            {
+                mant = mant * 10 + (uint64_t)(*s - '0');
+                exp10--;
+            }
+        }
+    }
+    if (digits == 0)
+        return 0.0L; // no conversion
+
+    if (*s == 'e' || *s == 'E')
+    {
+        const char *e = s + 1;
+        int e_neg = 0;
+        int e_val = 0;
+
+        if (*e == '+')
+            e++;
+        else if (*e == '-')
+        {
+            e++;
+            e_neg = 1;
+        }
+        if (*e >= '0' && *e <= '9')
+        {
+            for (; *e >= '0' && *e <= '9'; e++)
+                if (e_val < 100000)
+                    e_val = e_val * 10 + (*e - '0');
+            exp10 += e_neg ? -e_val : e_val;
+            s = e;
+        }
+    }
+    if (endptr)
+        *endptr = (char *)s;
+
+    val = (long double)mant;
+    if (mant != 0 && exp10 != 0)
+    {
+        int e = exp10 < 0 ? -exp10 : exp10;
+        int i;
+
+        if (e > 8000) // far beyond any representable value either way
+            e = 8000;
+        for (; e >= 512; e -= 256)
+            val = exp10 < 0 ? val / pow10_bin[8] : val * pow10_bin[8];
+        for (i = 0; e != 0; i++, e >>= 1)
+        {
+            if (!(e & 1))
+                continue;
+            if (exp10 < 0)
+                val /= pow10_bin[i];
+            else
+                val *= pow10_bin[i];
+        }
+    }
+    return neg ? -val : val;
 }
 
 float32_t igris_atof32(const char *str, char **pend)
 {
-    if (!igris_isdigit(*str) && *str != '-')
-    {
-        return 0;
-    }
-
-    uint8_t minus = *str == '-' ? 1 : 0;
-    if (minus)
-        str++;
-
-    char *end;
-    unsigned int u = igris_atou32(str, 10, &end);
-
-    str = end;
-    if (*str == '.')
-    {
-        int64_t d = igris_atou64(++str, 10, &end);
-        if (pend)
-            *pend = end;
-
-        float ret = (float)u + (float)((double)d /
-                                       (double)local_pow(10, (int)(end - str)));
-        return minus ? -ret : ret;
-    }
-
-    else
-    {
-        if (pend)
-            *pend = end;
-        return minus ? -(float)u : (float)u;
-    }
+    return (float32_t)parse_decimal(str, pend);
 }
 
 #ifndef WITHOUT_FLOAT64
@@ -400,83 +461,7 @@ char *igris_f64toa(float64_t f, char *buf, int8_t precision)
 
 float64_t igris_atof64(const char *nptr, char **endptr)
 {
-    double val = 0.0;
-    int d = 0;
-    int sign = 1;
-
-    if (!nptr)
-    {
-        return 0.0;
-    }
-
-    if (*nptr == '+')
-    {
-        nptr++;
-    }
-    else if (*nptr == '-')
-    {
-        nptr++;
-        sign = -1;
-    }
-
-    while (*nptr >= '0' && *nptr <= '9')
-    {
-        val = val * 10.0 + (*nptr - '0');
-        nptr++;
-    }
-
-    if (*nptr == '.')
-    {
-        nptr++;
-        while (*nptr >= '0' && *nptr <= '9')
-        {
-            val = val * 10.0 + (*nptr - '0');
-            nptr++;
-            d--;
-        }
-    }
-
-    if (*nptr == 'E' || *nptr == 'e')
-    {
-        int e_sign = 1;
-        int e_val = 0;
-
-        nptr++;
-        if (*nptr == '+')
-        {
-            nptr++;
-        }
-        else if (*nptr == '-')
-        {
-            nptr++;
-            sign = -1;
-        }
-
-        while ((*nptr >= '0' && *nptr <= '9'))
-        {
-            e_val = e_val * 10 + (*nptr - '0');
-            nptr++;
-        }
-        d += e_val * e_sign;
-    }
-
-    while (d > 0)
-    {
-        val *= 10.0;
-        d--;
-    }
-    while (d < 0)
-    {
-        val *= 0.1;
-        d++;
-    }
-
-    if (endptr)
-    {
-        *endptr = (char *)nptr;
-    }
-
-    return sign * val;
+    return (float64_t)parse_decimal(nptr, endptr);
 }
 
 #ifndef WITHOUT_ATOF64
